@@ -347,6 +347,45 @@ def r21_9(ctx, rep):
     codegen_always_builds(ctx, rep, "R21.9")
 
 
+@SPEC.rule(
+    "R21.10",
+    "an interrupted write leaves nothing locked: casadi/api.py takes no lock with a bare `.acquire()` — a lock is held through `with`, or "
+    "released in the `finally` of the try that follows the acquire; a lock still held after an exception in save_model makes the next "
+    "transfer_model of the same process wait forever instead of recompiling",
+)
+def r21_10(ctx, rep):
+    R = "R21.10"
+
+    def bare_acquires(fn):
+        out = []
+        for holder in ast.walk(fn):
+            for f_ in ("body", "orelse", "finalbody"):
+                lst = getattr(holder, f_, None)
+                if not isinstance(lst, list):
+                    continue
+                for i, st in enumerate(lst):
+                    c = st.value if isinstance(st, ast.Expr) else None
+                    if isinstance(c, ast.Call) and isinstance(c.func, ast.Attribute) and c.func.attr == "acquire":
+                        obj = norm(c.func.value)
+                        nxt = lst[i + 1] if i + 1 < len(lst) else None
+                        guarded = isinstance(nxt, ast.Try) and any(isinstance(x, ast.Call) and isinstance(x.func, ast.Attribute) and x.func.attr == "release"
+                                                                   and norm(x.func.value) == obj for fb in nxt.finalbody for x in ast.walk(fb))
+                        if not guarded:
+                            out.append("line %d: %s" % (st.lineno, norm(st)[:50]))
+        return out
+
+    probe = ast.parse("def f(l):\n    l.acquire()\n    g()\n    l.release()\n").body[0]
+    ok_probe = ast.parse("def f(l):\n    l.acquire()\n    try:\n        g()\n    finally:\n        l.release()\n").body[0]
+    if not bare_acquires(probe) or bare_acquires(ok_probe):
+        raise AnalysisError(R, "self-test of the bare-acquire detector failed")
+    mod = ctx.module(API, R)
+    fns = [f for f in ast.walk(mod) if isinstance(f, ast.FunctionDef)]
+    if len(fns) < 8:
+        raise MechanismMissing(R, "fewer than 8 functions scanned in casadi/api.py")
+    hits = ["%s %s" % (f.name, h) for f in fns for h in bare_acquires(f)]
+    rep.ob(R, API, "no lock is acquired without a finally that releases it", not hits, "; ".join(hits[:3]))
+
+
 # -- seeded variants ---------------------------------------------------------
 from ._mut import replace_in_func  # noqa: E402
 
